@@ -43,5 +43,5 @@ def sorter_for(sort,  # type: Sort
     return {
         Sort.ByPath: SortFunction(path_ranking),
         Sort.ByDate: SortFunction(date_rankking),
-        Sort.DoNot: NoSorter,
+        Sort.DoNot: NoSorter(),
     }[sort]
